@@ -233,6 +233,97 @@ def pairing_values(net, generator, model, tier):
 				yield ('S', base[1], [(name, pair if name == field.name else value) for name, value in base[2]])
 
 
+SHARING_PATTERNS_QUICK = ['aba', 'aa']
+SHARING_PATTERNS_THOROUGH = SHARING_PATTERNS_QUICK + ['aab', 'baa', 'abab', 'aaa']
+
+
+def shareable_arrays(model):
+	"""Array members that may hold the same element more than once: elements of a named type, no sort key (equal keys are inadmissible there)."""
+	found = []
+	for field in codec.settable_fields(model):
+		if not codec.is_array(field) or codec.is_byte_array(field) or not isinstance(field.field_type.element_type, str):
+			continue
+		if field.field_type.sort_key or field.is_conditional:
+			continue
+		if isinstance(field.field_type.size, int) and not field.field_type.is_expandable:
+			continue
+		found.append(field)
+	return found
+
+
+def share_elements(obj, member, pattern):
+	"""Makes the positions of obj.<member> that carry the same letter of `pattern` hold ONE element object (the value is unchanged)."""
+	elements = getattr(obj, '_' + codec.fix_name(member))
+	first = {}
+	for position, letter in enumerate(pattern):
+		elements[position] = first.setdefault(letter, elements[position])
+	return obj
+
+
+def shared_element_values(generator, model, tier):
+	"""Values that list an equal element several times, built the way a program that reuses a transaction / cosignature / address object
+	builds them: the SAME element object at the repeated positions (earlier and last, adjacent, first and second).  Where the schema
+	declares element alignment the repeated element has a size that is not a multiple of it, so that its padding matters."""
+	for field in shareable_arrays(model):
+		array_type = field.field_type
+		base = None
+		for pattern in SHARING_PATTERNS_QUICK if tier == 'quick' else SHARING_PATTERNS_THOROUGH:
+			if array_type.alignment:
+				drawn = {'a': generator.element_of_residue(array_type.element_type, array_type.alignment, False),
+					'b': generator.element_of_residue(array_type.element_type, array_type.alignment, generator.rng.randrange(2) == 0)}
+			else:
+				drawn = {letter: generator.named(array_type.element_type, 1) for letter in 'ab'}
+			if any(element is None for element in drawn.values()):
+				continue
+			if base is None:
+				generator.extreme = 'min'
+				base = generator.struct(model, 0)
+				generator.extreme = None
+			elements = [drawn[letter] for letter in pattern]
+			yield ('S', base[1], [(name, elements if name == field.name else value) for name, value in base[2]]), {'member': field.name, 'pattern': pattern}
+
+
+def value_record(tree, shared):
+	"""What a replay needs to rebuild the object: the value tree and, for values built with shared element objects, which positions share."""
+	record = {'tree': codec.tree_to_json(tree)}
+	if shared:
+		record['shared_element_objects'] = shared
+	return record
+
+
+def how_built(shared):
+	return f' (built with ONE element object at the positions of {shared["member"]} that carry the same letter of "{shared["pattern"]}")' if shared else ''
+
+
+def value_problems(net, name, tree, shared, parent):
+	"""P on one admissible value, on the implementation alone: it is built, encodes, reports the encoded length as its size, decodes back to
+	itself, and the family factory agrees with the concrete class.  Yields (op, text)."""
+	try:
+		obj = codec.to_object(net, name, tree)
+		if shared:
+			share_elements(obj, shared['member'], shared['pattern'])
+	except codec.Inadmissible as ex:
+		yield 'construct', f'a schema-admissible value is refused when the object is built ({str(ex)[:120]})'
+		return
+	encoded, size_text = impl_ser(obj).split('|')
+	if not encoded.startswith('ok:'):
+		yield 'serialize', f'schema-admissible value does not serialize ({encoded})'
+		return
+	data = bytes.fromhex(encoded[3:])
+	if size_text != f'ok:{len(data)}':
+		yield 'size', f'size reports {size_text} but {len(data)} bytes are encoded'
+	model = net.by_name[name]
+	if codec.kind(model) == 'Struct' and model.is_abstract:
+		return
+	des_text, decoded = impl_des(net, name, data)
+	if decoded is None or decoded[1] != tree:
+		yield 'roundtrip', f'decode(encode v) differs from v ({des_text[:120]})'
+	if parent and decoded is not None:
+		fac_text, fac = impl_fac(net, parent, data)
+		if fac is None or fac[0] != name or fac[1] != decoded[1]:
+			yield 'factory', f'{parent}Factory decodes {name} bytes as {fac_text[:100]}'
+
+
 def run_network(check, net, per_class, per_class_mutants):
 	rng = check.rng
 	generator = codec.Generator(net, rng, long_arrays=(check.tier == 'thorough'))
@@ -255,30 +346,34 @@ def run_network(check, net, per_class, per_class_mutants):
 				generator.extreme = {0: 'min', 1: 'min', 2: 'max'}.get(index)
 				value = generator.struct(model, 0) if is_abstract else generator.named(name)
 				generator.extreme = None
-				yield value
+				yield value, None
 			if not is_abstract and codec.kind(model) == 'Struct':
-				yield from pairing_values(net, generator, model, check.tier)
+				for value in pairing_values(net, generator, model, check.tier):
+					yield value, None
+				yield from shared_element_values(generator, model, check.tier)
 
-		for tree in class_values():
+		for tree, shared in class_values():
 			try:
 				obj = codec.to_object(net, name, tree)
+				if shared:
+					share_elements(obj, shared['member'], shared['pattern'])
 			except codec.Inadmissible as ex:
 				# the generator only produces values the schema admits (integers within their width, declared enum members, flag subsets)
 				check.case(f'{net.name}:ser:refused-at-construction', (name, codec.render(tree)))
 				check.fail(signature('admissible-value-refused', name, codec.render(tree)),
 					f'{net.name}.{name}: a schema-admissible value is refused when the object is built ({str(ex)[:120]})',
-					{'network': net.name, 'class': name, 'value': codec.render(tree), 'op': 'construct'})
+					{'network': net.name, 'class': name, 'value': codec.render(tree), 'op': 'construct', **value_record(tree, shared)})
 				continue
 			ser = impl_ser(obj)
 			exprs.append(f'case_ser {net.coq_schema} "{name}" {codec.coq_value(tree)}')
 			expected.append(ser)
 			meta.append(('ser', name, tree))
-			check.case(f'{net.name}:ser:{codec.kind(model)}', (name, codec.render(tree)))
+			check.case(f'{net.name}:ser:{"shared-element-objects" if shared else codec.kind(model)}', (name, codec.render(tree), str(shared)))
 			encoded, size_text = ser.split('|')
 			if not encoded.startswith('ok:'):
-				check.fail(signature('admissible-value-not-encodable', name, codec.render(tree)),
-					f'{net.name}.{name}: schema-admissible value does not serialize ({encoded})',
-					{'network': net.name, 'class': name, 'value': codec.render(tree), 'op': 'serialize'})
+				check.fail(signature('admissible-value-not-encodable', name, codec.render(tree) + how_built(shared)),
+					f'{net.name}.{name}: schema-admissible value does not serialize ({encoded})' + how_built(shared),
+					{'network': net.name, 'class': name, 'value': codec.render(tree), 'op': 'serialize', **value_record(tree, shared)})
 				continue
 			data = bytes.fromhex(encoded[3:])
 			encodings.append(data)
@@ -286,9 +381,9 @@ def run_network(check, net, per_class, per_class_mutants):
 				structured_sources.append((tree, data))
 			# P: size == len(bytes)
 			if size_text != f'ok:{len(data)}':
-				check.fail(signature('size-mismatch', name, codec.render(tree)),
-					f'{net.name}.{name}: size reports {size_text} but {len(data)} bytes are encoded',
-					{'network': net.name, 'class': name, 'value': codec.render(tree), 'bytes': data.hex(), 'op': 'size'})
+				check.fail(signature('size-mismatch', name, codec.render(tree) + how_built(shared)),
+					f'{net.name}.{name}: size reports {size_text} but {len(data)} bytes are encoded' + how_built(shared),
+					{'network': net.name, 'class': name, 'value': codec.render(tree), 'bytes': data.hex(), 'op': 'size', **value_record(tree, shared)})
 			if is_abstract:
 				continue
 			# P: decode(encode v) == v
@@ -299,8 +394,8 @@ def run_network(check, net, per_class, per_class_mutants):
 			check.case(f'{net.name}:des', (name, data.hex()))
 			if decoded is None or decoded[1] != tree:
 				check.fail(signature('roundtrip', name, data.hex()),
-					f'{net.name}.{name}: decode(encode v) differs from v ({des_text[:120]})',
-					{'network': net.name, 'class': name, 'value': codec.render(tree), 'bytes': data.hex(), 'op': 'roundtrip'})
+					f'{net.name}.{name}: decode(encode v) differs from v ({des_text[:120]})' + how_built(shared),
+					{'network': net.name, 'class': name, 'value': codec.render(tree), 'bytes': data.hex(), 'op': 'roundtrip', **value_record(tree, shared)})
 			# P: the family factory returns the same concrete type and value
 			if name in parent_of and decoded is not None:
 				fac_text, fac = impl_fac(net, parent_of[name], data)
@@ -311,7 +406,7 @@ def run_network(check, net, per_class, per_class_mutants):
 				if fac is None or fac[0] != name or fac[1] != decoded[1]:
 					check.fail(signature('factory', name, data.hex()),
 						f'{net.name}.{parent_of[name]}Factory decodes {name} bytes as {fac_text[:100]}',
-						{'network': net.name, 'class': name, 'factory': parent_of[name], 'bytes': data.hex(), 'op': 'factory'})
+						{'network': net.name, 'class': name, 'factory': parent_of[name], 'bytes': data.hex(), 'op': 'factory', **value_record(tree, shared)})
 		# P: a default-constructed object already carries the constants its schema names with @initializes (what create_by_name and the
 		# descriptor factories rely on), and the family factory recognises its encoding
 		if not is_abstract and codec.kind(model) == 'Struct' and model.initializers:
@@ -383,7 +478,9 @@ def run(check, unrecognised):
 		'modelled, not verified: the generated codec classes themselves (tied by correspondence), CPython int/bytes/memoryview/enum semantics']
 	check.assume += ['values are trees of ints/bytes/lists/structs; wrongly-typed Python objects assigned to members are outside the quantifier']
 	check.extra['rule'] = 'for every class of sc and nc (by reflection): schema-directed admissible values (boundary ints, enum members, flag subsets, ' \
-		'array lengths 0-3 (17 in thorough), both arms of conditionals, nested aggregates/multisig) -> serialize/size/deserialize/factory; ' \
+		'array lengths 0-3 (17 in thorough), both arms of conditionals, nested aggregates/multisig; every array of named elements also with ' \
+		'ONE element object listed at several positions (earlier and last, adjacent), of a size off the declared alignment) ' \
+		'-> serialize/size/deserialize/factory; ' \
 		'then random single-bit/byte/word mutations, truncations, extensions of valid encodings -> deserialize + re-encode; ' \
 		'distinct = distinct (class, value or bytes); all non-trivial'
 	if unrecognised.get('ArrayOps'):
@@ -401,11 +498,39 @@ def run(check, unrecognised):
 
 
 def replay(data):
+	"""Re-runs the recorded input on the implementation of the current tree.  Replays that carry the value tree (and how its element objects
+	are shared) are re-evaluated with the property oracle; byte-string replays with decode-encode-decode."""
 	codec.setup_paths()
 	info = data['replay']
+	print('replay data:', {k: str(v)[:300] for k, v in info.items()})
+	if 'network' not in info or 'class' not in info:
+		return 1
 	net = codec.load_net(info['network'])
-	if 'bytes' in info:
-		text, _ = impl_des(net, info['class'], bytes.fromhex(info['bytes']))
+	name = info['class']
+	if 'tree' in info:
+		parent_of = {child.name: parent for parent, children in net.children.items() for child in children}
+		problems = list(value_problems(net, name, codec.tree_from_json(info['tree']), info.get('shared_element_objects'), parent_of.get(name)))
+		for op, text in problems:
+			print(f'property: VIOLATED ({op}) {net.name}.{name}: {text}' + how_built(info.get('shared_element_objects')))
+		if not problems:
+			print('property: holds (the value is built, encodes to `size` bytes, decodes back to itself, the factory agrees)')
+		return 1 if problems else 0
+	if 'bytes' in info and info.get('op') in ('decode-encode', 'decode-encode-decode'):
+		text, decoded = impl_des(net, name, bytes.fromhex(info['bytes']))
 		print('deserialize:', text[:1000])
-	print('replay of', info.get('op'), 'for', info['class'], '- see fields of this file')
+		if decoded is None:
+			print('property: holds (the bytes do not decode)')
+			return 0
+		parts = text.split('|')
+		stable = parts[-1].startswith('ok:')
+		if stable:
+			again = bytes.fromhex(parts[-1][3:])
+			second_text, second = impl_des(net, name, again)
+			stable = second is not None and second[1] == decoded[1] and second_text.endswith('|ok:' + again.hex())
+		print('property:', 'holds' if stable else 'VIOLATED (decode-encode-decode is not stable)')
+		return 0 if stable else 1
+	if 'bytes' in info:
+		text, _ = impl_des(net, name, bytes.fromhex(info['bytes']))
+		print('deserialize:', text[:1000])
+	print('replay of', info.get('op'), 'for', name, '- see fields of this file')
 	return 1
